@@ -1,7 +1,7 @@
-\* histories on one live writer, repaired flags, exhaustive for 3 steps (any order of operations and updates); VIEW hides the history
+\* histories on one live writer (incl. the four api events of a collection, which share its source object), repaired flags, exhaustive for 3 steps (any order of operations and updates); VIEW hides the history
 SPECIFICATION HSpec
 CHECK_DEADLOCK FALSE
-INVARIANTS HContract
+INVARIANTS HContract SrcIntact
 VIEW HView
 CONSTANTS
   ExactFirst = TRUE
@@ -14,7 +14,8 @@ CONSTANTS
   Shapes = {"none", "exact", "wholedb", "unrelated", "both", "chain", "swap"}
   KindsUsed = {"createDatabase", "dropDatabase", "alterDatabase", "flush", "createIndex", "dropIndex", "alterIndex", "loadCollection", "releaseCollection", "loadPartitions", "releasePartitions", "createCredential", "deleteCredential", "updateCredential", "createRole", "dropRole", "operateUserRole", "operatePrivilege", "createCollection", "dropCollection", "createPartition", "dropPartition", "insert", "delete", "dropPartitionMsg", "dropCollectionMsg", "import", "waitDatabase", "waitCollection", "waitPartition"}
   StaleMemo = FALSE
-  HKinds = {"createIndex", "createPartition", "dropCollection", "insert", "alterDatabase", "dropDatabase", "loadPartitions", "waitCollection", "operatePrivilege", "createRole"}
+  EventMutated = FALSE
+  HKinds = {"createIndex", "createCollection", "createPartition", "dropPartition", "dropCollection", "insert", "alterDatabase", "dropDatabase", "loadPartitions", "waitCollection", "operatePrivilege", "createRole"}
   HSDBs = {"default", "", "other"}
   HColls = {"c1", "c2"}
   HUpds = {"exact1", "exact2", "retarget", "wholedb", "wholedb2", "unrelated", "chaindb", "swap"}
